@@ -278,22 +278,36 @@ class Program(Harness):
         self.parser = parser
         self.P = P
         self.job = job
-        self.variants = [dict(kind=k, style=s, directive=d, want=w) for k in range(len(P.KINDS)) for s in range(P.STYLES) for d in (False, True) for w in (False, True)]
-        self.variants = [v for v in self.variants if P.applicable(v) and (job.get('wants', True) or not v['want'])]
-        self.v = [z3.Int('statement%d' % i) for i in range(job['k'])]
+        K = job['k']
+        self.kind = [z3.Int('kind%d' % i) for i in range(K)]
+        self.style = [z3.Int('style%d' % i) for i in range(K)]
+        self.direc = [z3.Bool('directive%d' % i) for i in range(K)]
+        self.wantf = [z3.Bool('want%d' % i) for i in range(K)]
         self.layout = z3.Int('layout')
         self.base = [self.layout >= 0, self.layout <= 2]
-        for v in self.v:
-            self.base += [v >= 0, v < len(self.variants)]
+        for i in range(K):
+            self.base += [self.kind[i] >= 0, self.kind[i] < len(P.KINDS), self.style[i] >= 0, self.style[i] < P.STYLES]
+            if not job.get('wants', True):
+                self.base.append(z3.Not(self.wantf[i]))
+            # the grammar's side conditions (c01_program.applicable) as constraints, so that no path is spent outside it
+            names = [n for n, _ in P.KINDS]
+            single = [j for j, (n, ls) in enumerate(P.KINDS) if len(ls) == 1]
+            self.base.append(z3.Implies(self.style[i] == 2, self.kind[i] == names.index('triple_quoted')))
+            self.base.append(z3.Implies(z3.Or([self.kind[i] == j for j in single]), self.style[i] == 0))
+            self.base.append(z3.Implies(self.kind[i] == names.index('comment'), z3.And(z3.Not(self.wantf[i]), z3.Not(self.direc[i]))))
+            self.base.append(z3.Implies(self.kind[i] == names.index('triple_quoted'), z3.Not(self.direc[i])))
 
-    def case(self, n):
+    def case(self, n, b=None):
         lay = n(self.layout)
-        return {'harness': 'program', 'stmts': [self.variants[n(v)] for v in self.v], 'indent': 0 if lay == 0 else 4, 'prose': lay == 1}
+        stmts = [dict(kind=n(self.kind[i]), style=n(self.style[i]), directive=b(self.direc[i]), want=b(self.wantf[i])) for i in range(len(self.kind))]
+        return {'harness': 'program', 'stmts': stmts, 'indent': 0 if lay == 0 else 4, 'prose': lay == 1}
 
     def run(self, ex):
-        from sea.core import SymInt
+        from sea.core import SymBool, SymInt
         P = self.P
-        c = self.case(lambda v: int(SymInt(v)))
+        c = self.case(lambda v: int(SymInt(v)), lambda v: bool(SymBool(v)))
+        if not all(P.applicable(st) for st in c['stmts']):
+            ex.assume(False)          # combination outside the grammar (e.g. unprefixed lines outside a string)
         bad = P.problems(self.parser, c)
         self.last_error = bad
         names = [P.KINDS[s['kind']][0] for s in c['stmts']]
@@ -310,7 +324,7 @@ class Program(Harness):
         return {'statements_keep_their_lines_and_their_part': z3.BoolVal(not bad)}
 
     def describe(self, model):
-        return self.case(lambda v: model.eval(v, model_completion=True).as_long())
+        return self.case(lambda v: model.eval(v, model_completion=True).as_long(), lambda v: z3.is_true(model.eval(v, model_completion=True)))
 
 
 def build(job):
